@@ -2,7 +2,7 @@
 
 PROPERTIES = {
     "C05": dict(
-        modules=["lifting"],
+        modules=["lifting", "types_support"],
         level="proof",
         claim="support intervals reported for lifted operators / monotone functions / ranges contain every value the "
         "expression can take (all real operand intervals, all points inside them); the simplification shortcuts of the "
@@ -12,18 +12,27 @@ PROPERTIES = {
         "operands; the DelayedArgument layer applies the operation to the context values of its parts; vector operator lifting "
         "(handlers, helpers, zero shortcuts as identities of vector arithmetic at every decoration site, Vector*Distribution nodes); "
         "dispatch of distributionFunction / distributionMethod; toDistribution / toLazyValue; TypecheckedDistribution; "
-        "yaw/pitch/roll normalised by Constructible._specify",
+        "yaw/pitch/roll normalised by Constructible._specify; type layer (contracts/types_support.py, catalogue-bounded): "
+        "canCoerceType agrees with the documented coercion rules, coercion commutes with sampling for toType / toScalar / "
+        "toHeading / toVector (coerce, coerceToAny, TypecheckedDistribution construction + sampling inlined), unifierOfTypes / "
+        "unifyingType return a type every option can be used as, underlyingType, toDistribution on namedtuples and dicts; "
+        "TruncatedNormal.supportInterval contains every sample (cdf / cdfinv uninterpreted monotone functions)",
         note="floats as reals (A1); getattr/call on sampled values are abstract (logged) operations; type inference is not a carrier",
         assumptions=[
             "A1: floats are mathematical reals (no rounding, no overflow, no NaN)",
+            "types_support: types range over a fixed catalogue (bounded contracts); the oracle for coercibility is the rule table "
+            "in the module documentation of type_support plus 'an Orientation used as a heading is its yaw'",
             "monotonicDistributionFunction.support is verified under the precondition 'method is non-decreasing in every "
             "argument'; that precondition is discharged as an obligation at every decoration site found in the tree",
         ],
         not_reached=[
-            "type inference (inferType/underlyingType/unifyingType) and the coercion rules (toScalar/toVector/canCoerceType): only affect inserted coercions",
+            "inferType of OperatorDistribution / AttributeDistribution (still stubbed in the lifting contracts)",
+            "toOrientation / Orientation._coerce (numeric arms build rotations: C07) and Behavior._coerce / _canCoerceType",
+            "toTypes with several destination types; the lazy arm of toTypes (TypeChecker) and evaluateRequiringEqualTypes / TypeEqualityChecker",
+            "coerce on a TupleDistribution (direct conversion to a Vector of random coordinates)",
             "object_types inradiusSupport / planarInradiusSupport (custom support functions over mesh geometry)",
-            "TruncatedNormal.supportInterval / sampleGiven (erf, erfinv not modelled)",
-            "toLazyValue on dicts and namedtuples; toDistribution on namedtuples",
+            "Normal.cdf / cdfinv themselves (erf, erfinv: trusted monotone inverse pair inside TruncatedNormal.sampleGiven); TruncatedNormal.bucket",
+            "toLazyValue on dicts and namedtuples",
             "rotation of the zero vector by an Orientation (rotation-group axiom, C07)",
         ],
     ),
